@@ -263,6 +263,7 @@ def check_sweep(P, ctx):
     g = P.cfg(fn)
     ctx.fn(fn)
     N = util.Norm(P, fn)
+    NX = util.Norm(P, fn, expand_locals=True)
     # (1) pending-list appends: store freelist[freenum] = entries[i].ptr, followed by freenum++ and nitems--
     appends, decs, incs, fins = [], [], [], []
     for n in g.live():
@@ -272,7 +273,7 @@ def check_sweep(P, ctx):
             if ev['t'] == 'write':
                 lhs = N.canon(ev['lhs'])
                 if lhs[0] == 'idx' and lhs[1] == ('arrow', ('param', 0), 'freelist') and ev['rhs'] is not None and not ir.is_null(ev['rhs']):
-                    appends.append((n, lhs, N.canon(ev['rhs'])))
+                    appends.append((n, lhs, NX.canon(ev['rhs'])))
                 if lhs == ('arrow', ('param', 0), 'nitems') and ev['op'] in ('--',):
                     decs.append(n)
                 if lhs == ('arrow', ('param', 0), 'freenum') and ev['op'] == '++':
@@ -348,7 +349,7 @@ def check_sweep(P, ctx):
                       an['id'] in g.reach_from(n['id']) and n['id'] in g.reach_from(an['id'])]
         ok5 = len(scan_conds) == 1
         if ok5:
-            raw = ir.nocast(appends[0][0]['expr'])
+            raw = ir.nocast(NX.norm(appends[0][0]['expr']))
             idxv = [x for x in ir.walk(raw) if x[0] == 'idx' and util.mentions_field(x[1], 'entries')]
             iv = ir.top_nocast(idxv[0][2]) if idxv else None
             between = g.reach_from(an['id'], cut_nodes=[scan_conds[0]['id']])
